@@ -2,7 +2,10 @@ package checks
 
 import (
 	"fmt"
+	"net"
+	"os"
 	"reflect"
+	"syscall"
 	"time"
 
 	"github.com/gebn/bmc"
@@ -204,8 +207,13 @@ func retryAlphabet(inSession bool, w *World) []histAnswer {
 			return t.BMC.Respond(rx, rx.CC, body)
 		}), Class: clsFinal, Own: true, BodyErr: true},
 		{Answer: env.LostReply(), Class: clsNothing},
+		// the read fails with a socket error other than a timeout (what the kernel
+		// reports on a connected UDP socket after an ICMP "host unreachable")
+		{Answer: env.SocketError("socket-error-no-route-to-host", &net.OpError{Op: "read", Net: "udp", Err: os.NewSyscallError("recvfrom", syscall.EHOSTUNREACH)}), Class: clsNothing},
 		// a UDP datagram with no payload at all
 		rawGarbage("zero-length-datagram", func(t *env.Transport, rx *ref.Rx) []byte { return []byte{} }),
+		// an RMCP acknowledgement (class byte with the ACK bit, no data) and nothing else
+		rawGarbage("rmcp-ack-and-no-reply", func(t *env.Transport, rx *ref.Rx) []byte { return []byte{0x06, 0x00, 0x00, 0x87} }),
 		// a datagram larger than the 512-byte receive buffer
 		rawGarbage("garbage-600-bytes", func(t *env.Transport, rx *ref.Rx) []byte { return pattern(600, 0xA5, 0) }),
 		// the valid reply to a caller-defined command, its body sized so that the
